@@ -124,6 +124,13 @@ structure St (W : Type) where
   overlap : Bool := false
   /-- ghost flag: `enterAll` was called on a framer that was still active (entered twice without exit) -/
   reenter : Bool := false
+  /-- ghost flag: `exitAll` or a taken transition worked on a truncated outline (`actives ≠ active.outline`), i.e.
+  frames suspended below a conditional auxiliary were left entered -/
+  left : Bool := false
+  /-- ghost: frames entered and not exited since (updated where `.enter` / `.exit` events are emitted) -/
+  ent : Fid → Bool := fun _ => false
+  /-- ghost flag: a frame was entered while entered, or exited while not entered -/
+  dbl : Bool := false
 
 /-- semantics of the opaque parts -/
 structure Sem (W : Type) where
@@ -201,6 +208,21 @@ def otherRunning (P : Prog) (i : Frid) (aux : Frid) (s : St W) : Bool :=
 
 def markOverlap (b : Bool) (s : St W) : St W := { s with overlap := s.overlap || b }
 def markReenter (b : Bool) (s : St W) : St W := { s with reenter := s.reenter || b }
+def markLeft (b : Bool) (s : St W) : St W := { s with left := s.left || b }
+
+/-- `Frame.enter` is called on `f` (ghost bookkeeping + the event) -/
+def noteEnter (f : Fid) (s : St W) : St W :=
+  ({ s with dbl := s.dbl || s.ent f, ent := fun g => if g = f then true else s.ent g }).emit (.enter f)
+
+/-- `Frame.exit` is called on `f` -/
+def noteExit (f : Fid) (s : St W) : St W :=
+  ({ s with dbl := s.dbl || !(s.ent f), ent := fun g => if g = f then false else s.ent g }).emit (.exit f)
+
+/-- is the outline of framer `i` truncated (a conditional auxiliary suspends frames)? (ghost) -/
+def truncated (P : Prog) (i : Frid) (s : St W) : Bool :=
+  match (s.fr i).active with
+  | some a => (s.fr i).actives != (P.frame a).outline
+  | none => false
 
 /-- `framer.reactivate()`: `self.change(self.active.outline, …)` -/
 def reactivate (P : Prog) (i : Frid) (s : St W) : Except Err (St W) :=
@@ -276,7 +298,7 @@ def checkEnter (enters exits : List Fid) (s : St W) : Except Err Bool :=
 
 /-- `Frame.enter()` -/
 def frameEnter (f : Fid) (s : St W) : Except Err (St W) :=
-  let s := runActs sem .enter f (P.frame f).enacts (s.emit (.enter f))
+  let s := runActs sem .enter f (P.frame f).enacts (noteEnter f s)
   forEach (fun aux s => lo.enterAll aux (claim P aux f s)) (P.frame f).auxes s
 
 /-- `Framer.enter(enters)` -/
@@ -287,7 +309,7 @@ def enter (i : Frid) (enters : List Fid) (s : St W) : Except Err (St W) :=
 /-- `Frame.exit()`: auxes first (`aux.exitAll(); if aux.original: aux.main = None`, the same two statements as
 `Suspender.deactivate`), then the exit acts, the `deactivize` side acts last -/
 def frameExit (f : Fid) (s : St W) : Except Err (St W) :=
-  match forEach (deactivateAux P lo) (P.frame f).auxes (s.emit (.exit f)) with
+  match forEach (deactivateAux P lo) (P.frame f).auxes (noteExit f s) with
   | .error e => .error e
   | .ok s1 =>
     let s2 := runActs sem .exit f (P.frame f).exacts s1
@@ -314,7 +336,7 @@ def enterAll (i : Frid) (s : St W) : Except Err (St W) :=
 
 /-- `Framer.exitAll(abort)` -/
 def exitAll (abort : Bool) (i : Frid) (s : St W) : Except Err (St W) :=
-  match exit P sem lo (s.fr i).actives s with
+  match exit P sem lo (s.fr i).actives (markLeft (truncated P i s) s) with
   | .error e => .error e
   | .ok s1 =>
     let s2 := deactivate i s1
@@ -345,7 +367,7 @@ def transit (i : Frid) (f : Fid) (needs : List NeedId) (far : Fid) (tracts : Lis
   | .error e => .error e
   | .ok false => .ok (false, s)
   | .ok true =>
-    let s := runActs sem .transit f tracts s
+    let s := runActs sem .transit f tracts (markLeft (truncated P i s) s)
     match exit P sem lo exits s with
     | .error e => .error e
     | .ok s =>
